@@ -537,6 +537,9 @@ func (s *session) judge(t Tamper, label string, err error) string {
 	if t.Class == "elem" {
 		s.cls = append(s.cls, "slot:"+t.Kind+":"+r, "reason:"+reason(err))
 	}
+	if t.Class == "rescale" {
+		s.cls = append(s.cls, "rescale:"+t.Op+":"+reason(err))
+	}
 	if t.Class == "hybrid" && t.Kind != "" {
 		s.cls = append(s.cls, "vector:"+t.Kind+":"+r)
 	}
@@ -559,7 +562,7 @@ func (s *session) tamper(t Tamper) string {
 	ch := s.chainOf(t.Phase)
 	m := len(ch.b)
 	switch t.Class {
-	case "elem", "chal", "header", "hybrid":
+	case "elem", "chal", "header", "hybrid", "rescale":
 		k := t.At % m
 		b := ch.b[k]
 		l, err := s.layoutOf(t.Phase, b)
@@ -630,7 +633,7 @@ func (s *session) tamper(t Tamper) string {
 				if sl.Group == 2 {
 					mul = s.a.g2Mul
 				}
-				if nv, err = mul(old, t.K); err != nil {
+				if nv, err = mul(old, big.NewInt(t.K)); err != nil {
 					return "harness: honest slot does not decode as a point: " + err.Error()
 				}
 			case "gen":
@@ -714,6 +717,58 @@ func (s *session) tamper(t Tamper) string {
 			}
 			tb = l.withChallenge(b, nc)
 			label = fmt.Sprintf("contribution %d, challenge %s", k, t.Op)
+		case "rescale":
+			// The contribution is made to carry an extra factor K on one secret, applied consistently to
+			// every vector (all same-ratio / cross-vector relations keep holding), while the update
+			// proofs stay those of the honest contributor: nobody proved knowledge of the extra factor.
+			r := s.f.Q // group order
+			K := new(big.Int).Mod(big.NewInt(t.K), r)
+			Kinv := new(big.Int).ModInverse(K, r)
+			pow := func(i int) *big.Int { return new(big.Int).Exp(K, big.NewInt(int64(i)), r) }
+			sub := 0
+			if t.Phase == 2 && l.NbCom > 0 {
+				sub = t.Idx % l.NbCom
+				if t.Idx < 0 {
+					sub = l.NbCom - 1
+				}
+			}
+			tb = append([]byte{}, b...)
+			n := 0
+			for _, x := range l.Slots {
+				var f *big.Int
+				switch t.Op + "|" + x.Kind {
+				case "tau|p1.tau1", "tau|p1.tau2", "tau|p1.alphaTau", "tau|p1.betaTau":
+					f = pow(x.Idx)
+				case "alpha|p1.alphaTau", "beta|p1.betaTau", "beta|p1.beta2", "delta|p2.delta1", "delta|p2.delta2":
+					f = K
+				case "delta|p2.z", "delta|p2.pkk":
+					f = Kinv
+				case "sigma|p2.sigmaCKK", "sigma|p2.sigma":
+					if x.Sub == sub {
+						f = K
+					}
+				}
+				if f == nil {
+					continue
+				}
+				mul := s.a.g1Mul
+				if x.Group == 2 {
+					mul = s.a.g2Mul
+				}
+				nv, err := mul(b[x.Off:x.Off+x.Len], f)
+				if err != nil {
+					return "harness: honest slot does not decode as a point: " + err.Error()
+				}
+				copy(tb[x.Off:], nv)
+				n++
+			}
+			if n == 0 {
+				return s.skip(t, "no slot to rescale")
+			}
+			if bytes.Equal(tb, b) {
+				return s.skip(t, "identity edit")
+			}
+			label = fmt.Sprintf("contribution %d, secret %s carries an extra factor %d on %d slots (update proofs unchanged)", k, t.Op, t.K, n)
 		case "hybrid":
 			// whole groups of slots taken from the same position of the independent chain, or left stale
 			var src []byte
@@ -935,6 +990,7 @@ var chalOps = []string{"flip", "flip", "other", "trunc", "extend", "zero", "empt
 var chainOps = []string{"drop-last", "drop", "swap", "reverse", "dup", "dup-end", "splice-replace", "splice-insert"}
 var envOps = []string{"commons-other", "commons-beacon", "commons-prefix", "circuit-coef", "circuit-coef"}
 var headerOps = []string{"N-half", "N-double"}
+var rescaleOps = map[int][]string{1: {"tau", "tau", "alpha", "beta"}, 2: {"delta", "delta", "sigma"}}
 var hybridOps = []string{"params-other", "proofs-other", "params-prev", "kind-other", "kind-other", "kind-prev", "kind-prev"}
 var muls = []int64{-1, -1, 2, 3, 5, -2, 7, 1 << 20}
 
@@ -996,12 +1052,18 @@ func genTamper(r *mix, i, kindOff int) Tamper {
 			tm.Kind = kinds[(kindOff+i)%len(kinds)]
 		}
 		tm.Direct = r.intn(10) < 6
-	case x < 80:
+	case x < 76:
+		tm.Class = "rescale"
+		tm.Op = pick(r, rescaleOps[tm.Phase])
+		tm.K = pick(r, []int64{-1, 2, 3, 5})
+		tm.Idx = r.intn(4)
+		tm.Direct = r.intn(10) < 6
+	case x < 84:
 		tm.Class = "chal"
 		tm.Op = pick(r, chalOps)
 		tm.Bit = r.intn(256)
 		tm.Direct = r.intn(2) == 0
-	case x < 92:
+	case x < 93:
 		tm.Class = "chain"
 		tm.Op = pick(r, chainOps)
 	case x < 97:
@@ -1082,7 +1144,7 @@ func genCase(curves []curveCfg, minT, maxT int) *rapid.Generator[Case] {
 	})
 }
 
-const rule = "rapid-generated ceremonies: provable program (0-3 commitments; lib/zk.GenProvable, satisfying assignments only) padded with squarings to a drawn domain size 8..64, or one of 5 hand-written 2-6 constraint circuits (domain 2..8) (optionally phase 1 run for twice the minimal domain), 1-4 phase-1 and 1-4 phase-2 contributions each passed through WriteTo/ReadFrom, on a drawn curve; positive oracles: VerifyPhase1/VerifyPhase2 accept, SrsCommons round-trip, the sealed keys prove+verify and reject every public input +1. Then 10-16 drawn tamperings: one serialized group element (kind drawn uniformly over the 21 slot kinds of the marshal layout) replaced by another slot of the same kind / same group, by the same slot of the previous contribution (stale) or of an independent chain, by a multiple of itself, by infinity, or with one bit flipped; the challenge flipped / replaced / truncated / extended / zeroed (emptied: documented fill-in, nothing asserted); chain edits (swap, reverse, drop non-final, duplicate, splice from an independent chain; oracle: accepted iff the resulting sequence is a prefix of one honest chain); phase 2 verified against other commons (independent chain, other beacon, shorter phase-1 prefix) or a circuit with one coefficient changed on an internal wire (optionally with all challenges emptied); the phase-1 domain-size header halved/doubled. Oracle: an error from ReadFrom or Verify. Non-trivial: the honest ceremony passed all positive oracles AND at least one tampered contribution decoded and was rejected by a verifier consistency check (decode rejections are counted apart). Distinct: SHA-256 of the case JSON."
+const rule = "rapid-generated ceremonies: provable program (0-3 commitments; lib/zk.GenProvable, satisfying assignments only) padded with squarings to a drawn domain size 8..64, or one of 5 hand-written 2-6 constraint circuits (domain 2..8) (optionally phase 1 run for twice the minimal domain), 1-4 phase-1 and 1-4 phase-2 contributions each passed through WriteTo/ReadFrom, on a drawn curve; positive oracles: VerifyPhase1/VerifyPhase2 accept, SrsCommons round-trip, the sealed keys prove+verify and reject every public input +1. Then 10-16 drawn tamperings: one serialized group element (kind drawn uniformly over the 21 slot kinds of the marshal layout) replaced by another slot of the same kind / same group, by the same slot of the previous contribution (stale) or of an independent chain, by a multiple of itself, by infinity, by the group generator, or with one bit flipped; whole vectors / all parameters / all proofs taken from the independent chain or left stale; one secret (tau, alpha, beta, delta, sigma_j) rescaled consistently across every vector while the update proofs are kept; the challenge flipped / replaced / truncated / extended / zeroed (emptied: documented fill-in, nothing asserted); chain edits (swap, reverse, drop non-final, duplicate, splice from an independent chain; oracle: accepted iff the resulting sequence is a prefix of one honest chain); phase 2 verified against other commons (independent chain, other beacon, shorter phase-1 prefix) or a circuit with one coefficient changed on an internal wire (optionally with all challenges emptied); the phase-1 domain-size header halved/doubled. Oracle: an error from ReadFrom or Verify. Non-trivial: the honest ceremony passed all positive oracles AND at least one tampered contribution decoded and was rejected by a verifier consistency check (decode rejections are counted apart). Distinct: SHA-256 of the case JSON."
 
 func quickCurves() []curveCfg {
 	return []curveCfg{{"bn254", 6}, {"bn254", 6}, {"bn254", 6}, {"bls12-381", 6}, {"bls12-381", 5}, {"bls12-377", 5}, {"bw6-633", 3}, {"bw6-761", 3}, {"bls24-315", 3}, {"bls24-317", 3}}
